@@ -63,10 +63,14 @@ def eval_formula(formula, cells=None, addr=PROBE, default_sheet='Sheet1',
         # fresh model's answer, so any state carried from one evaluation to
         # the next (caches in AST nodes, functions, ranges) shows up in every
         # check that evaluates formulas over cells.
-        for a, v in list(d.items()):
+        i = 0
+        for a, v in sorted(d.items()):
             if a != addr and isinstance(v, (int, float)) and not isinstance(
                     v, bool):
-                d[a] = v + 1
+                # not one shift for all (that would keep every comparison
+                # between two inputs as it is): +1, -2, +3, ...
+                i += 1
+                d[a] = v + (i if i % 2 else -i)
     try:
         model = compile_dict(d, default_sheet)
     except Exception as err:  # noqa: BLE001
